@@ -101,7 +101,7 @@ def expand(history, maxnest, depth, cfgdepth, case):
 
 def run(ctx):
     quick = ctx.tier == "quick"
-    maxnest, depth, cfgdepth = (3, 7, 3) if quick else (4, 9, 4)
+    maxnest, depth, cfgdepth = (3, 5, 3) if quick else (4, 9, 4)
     case = common.rot(["lower", "upper", "mixed"])[0]
     ctx.cov["bounds"] = {"max_definition_nesting": maxnest, "max_history": depth,
                          "all_configurations_up_to_history": cfgdepth - 1, "four_configurations_at_history": cfgdepth, "configurations": len(configs(True)),
